@@ -6,7 +6,7 @@ STD = ["Go harness generators and canonicalisation", "hand-written Lean model ti
 PROPS = {
     "C01": {
         "spec_key": "c01",
-        "runs": [{"engine": "seq", "mode": "c01", "n_quick": 1500, "n_thorough": 1500000}],
+        "runs": [{"engine": "seq", "mode": "c01", "n_quick": 1500, "n_thorough": 1400000}],
         "rule": "histories of 5-25 (thorough: 5-60) public operations over a pool of 1-3 generated frames; "
                 "distinct = different protocol line; non-trivial = at least one successful step on a frame with >= 2 rows",
         "assumptions": ["user-supplied columns have the receiver's length (the property's own side condition)",
@@ -15,7 +15,7 @@ PROPS = {
     },
     "C02": {
         "spec_key": "c02",
-        "runs": [{"engine": "seq", "mode": "c02", "n_quick": 1500, "n_thorough": 1500000}],
+        "runs": [{"engine": "seq", "mode": "c02", "n_quick": 1500, "n_thorough": 1400000}],
         "rule": "derive-then-edit histories; after every step every live frame is dumped cell by cell and all frames "
                 "other than the target of an in-place edit must be unchanged; non-trivial = at least one successful step on a frame with >= 2 rows",
         "assumptions": ["Select (documented to return the live column) and callbacks returning their argument are excluded, as in the property"],
@@ -23,7 +23,7 @@ PROPS = {
     },
     "C20": {
         "spec_key": "c20",
-        "runs": [{"engine": "seq", "mode": "c20", "n_quick": 1500, "n_thorough": 1500000},
+        "runs": [{"engine": "seq", "mode": "c20", "n_quick": 1500, "n_thorough": 1400000},
                  {"engine": "plot", "mode": "", "n_quick": 150, "n_thorough": 3000, "timeout": 600}],
         "rule": "histories biased to invalid arguments (unknown names, boundary and extreme integers, unknown option strings, "
                 "mismatched operands, wrong cell types); every call under recover(); non-trivial = at least one successful step on a frame with >= 2 rows",
@@ -32,11 +32,11 @@ PROPS = {
     },
 }
 
-def _rel(pid, key, mode, what, nq=3000, nt=200000):
+def _rel(pid, key, mode, what, nq=3000, nt=2800000):
     PROPS[pid] = {
         "spec_key": key,
         "runs": [{"engine": "seq", "mode": mode, "n_quick": nq, "n_thorough": nt},
-                 {"engine": "seq", "mode": "c01", "n_quick": 300, "n_thorough": 20000}],
+                 {"engine": "seq", "mode": "c01", "n_quick": 300, "n_thorough": 280000}],
         "rule": what + "; plus general histories in which the operation occurs on derived frames; distinct = different protocol "
                 "line; non-trivial = at least one successful step on a frame with >= 2 rows",
         "assumptions": [], "trusted_base": STD,
@@ -56,7 +56,7 @@ _rel("C19", ["c19", "c02"], "c19", "frames of 0-12 rows, offsets from {0, +-1, +
 
 PROPS["C04"] = {
     "spec_key": "c04",
-    "runs": [{"engine": "grp", "mode": "", "n_quick": 4000, "n_thorough": 300000}],
+    "runs": [{"engine": "grp", "mode": "", "n_quick": 4000, "n_thorough": 2800000}],
     "rule": "frames of 0-30 rows, 1-3 key columns over an alphabet built to collide under %v (1, int64 1, 1.0, \"1\", \"x|y\", \"x\", "
             "\"y|z\", nil, \"<nil>\", true, \"true\"), single key or key list, missing keys at low rate; distinct = different protocol "
             "line; non-trivial = at least 2 groups and at least one group with 2 rows",
@@ -68,7 +68,7 @@ PROPS["C05"] = dict(PROPS["C04"], spec_key="c05",
 
 PROPS["C16"] = {
     "spec_key": "c16",
-    "runs": [{"engine": "agg", "mode": "", "n_quick": 4000, "n_thorough": 300000}],
+    "runs": [{"engine": "agg", "mode": "", "n_quick": 4000, "n_thorough": 2800000}],
     "rule": "frames of 1-3 columns x 0-12 rows mixing int, int64, float32, float64 and numeric text in every order, one non-numeric "
             "cell at first/middle/last position in 25% of columns, NaN/+-Inf at chosen positions in 30%; Series and frame-level "
             "Sum/Mean/Min/Max, Describe, and Add of two further frames with independent lengths and optional fill; "
@@ -79,7 +79,7 @@ PROPS["C16"] = {
 }
 PROPS["C17"] = {
     "spec_key": "c17", "race": True,
-    "runs": [{"engine": "apl", "mode": "", "n_quick": 1200, "n_thorough": 60000}],
+    "runs": [{"engine": "apl", "mode": "", "n_quick": 1200, "n_thorough": 1120000}],
     "rule": "frames of 0-8 rows (8%: more rows than workers) x 0-3 columns; row-wise Apply under a forced completion order "
             "(random priority per row enforced through the verif gate: the worker holding the smallest priority among those at the "
             "gate is released next), column-wise Apply; 8 callbacks incl. slice and scalar results; built and run with -race; "
@@ -90,7 +90,7 @@ PROPS["C17"] = {
 }
 PROPS["C18"] = {
     "spec_key": "c18",
-    "runs": [{"engine": "rsm", "mode": "", "n_quick": 3000, "n_thorough": 200000}],
+    "runs": [{"engine": "rsm", "mode": "", "n_quick": 3000, "n_thorough": 1400000}],
     "rule": "timestamps 1900-2100 in UTC or one fixed-offset zone per frame, unsorted, with repeats, clustered around "
             "year/month/day/hour/minute boundaries; 0-3 value columns; six frequency codes plus unknown ones; 4 aggregators exposing their "
             "exact input; every case is called 8 (thorough 32) times and all results compared; non-trivial = >= 2 buckets and one bucket with >= 2 rows",
@@ -100,7 +100,7 @@ PROPS["C18"] = {
 
 PROPS["C09"] = {
     "spec_key": "c09",
-    "runs": [{"engine": "csv", "mode": "rt", "n_quick": 5000, "n_thorough": 400000}],
+    "runs": [{"engine": "csv", "mode": "rt", "n_quick": 5000, "n_thorough": 2800000}],
     "rule": "frames of 1-4 columns x 0-5 rows; cells: ints incl. +-2^53, floats incl. NaN, +-Inf, -0, subnormal, MaxFloat64, 2^53+1, text over "
             "comma / quote / LF / CR / tab / non-ASCII / empty / backslash-dot; names from the same alphabet incl. the empty name; 15% of frames "
             "contain out-of-domain cells (untrimmed text, numeric text, CR LF inside, nil, bool) and are only compared with the model; "
@@ -112,7 +112,7 @@ PROPS["C09"] = {
 }
 PROPS["C10"] = {
     "spec_key": "c10",
-    "runs": [{"engine": "csv", "mode": "imp", "n_quick": 5000, "n_thorough": 400000},
+    "runs": [{"engine": "csv", "mode": "imp", "n_quick": 5000, "n_thorough": 2800000},
              {"engine": "csv", "mode": "small", "n_quick": 19608, "n_thorough": 960800,
               "exhaustive": "FromCSVReader and encoding/csv vs the Lean reader on all byte strings of length <= 5 (quick) / <= 7 (thorough) over {a , quote CR LF space 1}"}],
     "rule": "grammar-generated tables (quoted/unquoted fields, numeric look-alikes: signs, exponents, hex floats, inf/nan spellings, "
@@ -128,27 +128,27 @@ _SQLW = {"assumptions": ["the recording driver interprets no SQL; statements are
          "trusted_base": STD + ["Lean SQL lexer/parser and abstract transactional database (Std/SqlLex.lean, Ops/SqlWrite.lean)",
                                 "database/sql's Tx life-cycle: Commit finishes the Tx whether or not the driver's commit succeeded"]}
 PROPS["C11"] = dict(_SQLW, spec_key="c11",
-    runs=[{"engine": "sqlw", "mode": "", "n_quick": 3000, "n_thorough": 200000}],
+    runs=[{"engine": "sqlw", "mode": "", "n_quick": 3000, "n_thorough": 1400000}],
     rule="frames 0-25 rows x 0-4 columns over nil/int widths/float/string/bool/time; 3 dialects + aliases + mixed case + unknown; "
          "IfExists x table present/absent; batch sizes 1..rows+2, default, 0, negative, 2^62; with/without TypeMap; four entry points; "
          "every recorded statement is lexed+parsed in Lean, executed on the abstract database and the final table compared with the "
          "frame's rows; non-trivial = at least one INSERT issued")
 PROPS["C12"] = dict(_SQLW, spec_key="c12",
-    runs=[{"engine": "sqlw", "mode": "fault", "n_quick": 400, "n_thorough": 30000}],
+    runs=[{"engine": "sqlw", "mode": "fault", "n_quick": 400, "n_thorough": 560000}],
     rule="for each scenario the fault-free run is followed by one run per driver call with THAT call failing (Begin, existence query, "
          "DROP, CREATE, every INSERT batch, Commit, Rollback): exhaustive over fault positions per scenario; the abstract database is "
          "evolved from the implementation's own trace; non-trivial = at least one INSERT issued")
 PROPS["C13"] = dict(_SQLW, spec_key="c13",
     runs=[{"engine": "qid", "mode": "", "n_quick": 7381, "n_thorough": 597871,
            "exhaustive": "QuoteIdentifier x 3 dialects on all strings of length <= 4 (quick) / <= 6 (thorough) over a 9-character alphabet"},
-          {"engine": "qid", "mode": "random", "n_quick": 500, "n_thorough": 20000},
-          {"engine": "sqlw", "mode": "names", "n_quick": 1500, "n_thorough": 100000}],
+          {"engine": "qid", "mode": "random", "n_quick": 500, "n_thorough": 280000},
+          {"engine": "sqlw", "mode": "names", "n_quick": 1500, "n_thorough": 700000}],
     rule="QuoteIdentifier of the three exported dialects on EVERY string up to length 4 (thorough: 6) over {\" ` ' \\ ; - space a b} plus "
          "random longer / non-ASCII names; whole ToSQL runs whose table and column names come from an injection alphabet, every statement "
          "lexed by the independent Lean lexer; non-trivial = name contains a quote character / an INSERT was issued")
 PROPS["C14"] = {
     "spec_key": "c14",
-    "runs": [{"engine": "sqlr", "mode": "", "n_quick": 5000, "n_thorough": 400000}],
+    "runs": [{"engine": "sqlr", "mode": "", "n_quick": 5000, "n_thorough": 2800000}],
     "rule": "result sets of 0-20 rows x 1-5 columns; declared types from the property's list plus unknown ones and look-alikes (POINT, "
             "INTERVAL, DATETIME2, lower case); NULL rates 0/10/30/100%; handlers none/nil/zero/skip_row/map/unknown string/wrong type; "
             "ParseDates subsets with strings produced by formatting known times in the seven layouts, Unix seconds/milliseconds, "
